@@ -636,10 +636,22 @@ func (v *verifier) clientHello() {
 			f(name, true, fmt.Sprintf("no extension %d", t))
 		}
 	}
-	boolExt("ocsp-stapling", l.OcspStapling, tlswire.ExtStatusRequest)
+	// Three booleans are copied by clientHelloMsg.MakeLog straight from the message that is
+	// marshalled (ocspStapling, ticketSupported, scts), so for them "false" is a statement
+	// about the wire too and is compared in both directions.  Every other boolean stays
+	// one-sided: MakeLog never fills heartbeat / extended master secret / sctEnabled, and
+	// SecureRenegotiation is by design false on an initial handshake although the (empty)
+	// extension is sent.
+	boolExt2 := func(name string, val bool, t uint16) {
+		boolExt(name, val, t)
+		if _, ok := hasExt(w.Extensions, t); !val && ok {
+			f(name, false, fmt.Sprintf("extension %d is on the wire", t))
+		}
+	}
+	boolExt2("ocsp-stapling", l.OcspStapling, tlswire.ExtStatusRequest)
 	boolExt("heartbeat", l.HeartbeatSupported, tlswire.ExtHeartbeat)
 	boolExt("extended-master-secret", l.ExtendedMasterSecret, tlswire.ExtExtendedMasterSecret)
-	boolExt("scts", l.Scts, tlswire.ExtSCT)
+	boolExt2("scts", l.Scts, tlswire.ExtSCT)
 	boolExt("sct-enabled", l.SctEnabled, tlswire.ExtSCT)
 	if l.SecureRenegotiation {
 		d, ok := hasExt(w.Extensions, tlswire.ExtRenegotiationInfo)
@@ -651,6 +663,9 @@ func (v *verifier) clientHello() {
 		if d, ok := hasExt(w.Extensions, tlswire.ExtExtendedRandom); !ok || !bytes.Contains(d, l.ExtendedRandom) {
 			f("extended-random", fmt.Sprintf("%x", l.ExtendedRandom), fmt.Sprintf("%x", d))
 		}
+	}
+	if _, ok := hasExt(w.Extensions, tlswire.ExtSessionTicket); ok && !l.TicketSupported {
+		f("ticket", false, "the session_ticket extension is on the wire")
 	}
 	if l.TicketSupported {
 		if _, ok := hasExt(w.Extensions, tlswire.ExtSessionTicket); !ok {
@@ -1461,7 +1476,7 @@ const rule = "zcrypto client <-> zcrypto server handshakes through a recording p
 func TestPropLog(t *testing.T) {
 	kit.Run(t, kit.Spec[Case]{ID: "C28", Name: "log", Rule: rule, Gen: gen, Check: check, Quick: 2000, Thorough: 30000,
 		Assumptions: []string{
-			"'populated' = true boolean / non-empty bytes or list / non-zero scalar / non-nil sub-structure; false, empty and nil log fields assert nothing",
+			"'populated' = true boolean / non-empty bytes or list / non-zero scalar / non-nil sub-structure; false, empty and nil log fields assert nothing - except the three ClientHello booleans that MakeLog copies from the marshalled message (ocsp stapling, session ticket, SCT), which are compared in both directions",
 			"logged signature algorithms are compared by their JSON names: rsa or pkcs1v15 for PKCS#1, rsa or rsapss for PSS, ecdsa, dsa, ed25519; hash by name, 'intrinsic' or 'none' for Ed25519",
 			"ClientHello.SignatureAndHashes may be an order-preserving sub-list of the wire list (schemes zcrypto has no name for are not populated)",
 			"a logged SessionTicket without a NewSessionTicket message in the same handshake must be the ticket the ClientHello offered; its lifetime hint is not checked",
